@@ -260,4 +260,79 @@ def inet_pton6 (s : V) : PyM V :=
   | .str _ => throw .unsupported
   | _ => throw .TypeError
 
+/-! ### abstract methods, multi-field `struct`, byte arrays (frame object) -/
+
+/-- the ABSTRACT methods / class variables of a base class as seen from the translated base-class code: a parameter of
+every translated method of such a class.  `env name (self :: args)` is the result of `self.name(args)` (`self.name` for a
+class variable); the callee is assumed not to assign slots of `self` (true of every `create_message` /
+`decode_message` in the repository; the translator cannot check it, the harness does on the kinds it drives). -/
+abbrev Env := String → List V → PyM V
+
+/-- the environment the validation harness uses (harness/pycode_types.py defines the same subclass of `Frame`):
+`create_message(data)` = `data.get("m", b"")` (ValueError when it is not bytes), `decode_message(m)` = `{"m": bytes(m)}`
+(ValueError on a leading 0xEE), `frame_type` = 49 -/
+def testEnv : Env := fun name args =>
+  match name, args with
+  | "create_message", [_, .dict ks vs] =>
+    match lookup ks vs "m" with
+    | some (.bytes b) => pure (.bytes b)
+    | some _ => throw .ValueError
+    | Option.none => pure (.bytes [])
+  | "decode_message", [_, .bytes b] =>
+    match b with
+    | 0xEE :: _ => throw .ValueError
+    | _ => pure (.dict ["m"] [.bytes b])
+  | "frame_type", [_] => pure (.int 49)
+  | _, _ => throw .unsupported
+
+/-- field widths of a little-endian format of unsigned fields (`B` 1 byte, `H` 2 bytes, with repeat counts):
+`"<BH4B"` ↦ `[1, 2, 1, 1, 1, 1]` -/
+def fmtFieldsAux : List Char → Nat → Option (List Nat)
+  | [], 0 => some []
+  | [], _ => Option.none
+  | c :: r, k =>
+    if c.isDigit then fmtFieldsAux r (k * 10 + (c.toNat - 48))
+    else
+      let w := if c = 'B' then some 1 else if c = 'H' then some 2 else Option.none
+      match w, fmtFieldsAux r 0 with
+      | some w, some rest => some (List.replicate (if k = 0 then 1 else k) w ++ rest)
+      | _, _ => Option.none
+
+def fmtFields (fmt : String) : Option (List Nat) :=
+  match fmt.toList with
+  | '<' :: r => fmtFieldsAux r 0
+  | _ => Option.none
+
+/-- the packed fields, `struct.error` for a value that is not an integer or is out of range -/
+def packFields : List Nat → List V → PyM (List UInt8)
+  | [], [] => pure []
+  | w :: ws, x :: xs =>
+    match asInt? x with
+    | some v =>
+      if 0 ≤ v ∧ v < (256 ^ w : Nat) then do
+        let rest ← packFields ws xs
+        pure (encodeLE v.toNat w ++ rest)
+      else throw .StructError
+    | Option.none => throw .StructError
+  | _, _ => throw .StructError
+
+/-- `struct.Struct(fmt).pack_into(buffer, offset, *args)` for formats of unsigned byte / short fields: the buffer
+afterwards (`struct.error` when the fields do not fit into the buffer at that offset) -/
+def struct_pack_into (fmt : String) (buf off : V) (args : List V) : PyM V :=
+  match fmtFields fmt, buf, off with
+  | some ws, .bytes b, .int o =>
+    if o < 0 then throw .unsupported
+    else do
+      let packed ← packFields ws args
+      if o.toNat + packed.length ≤ b.length then
+        pure (.bytes (b.take o.toNat ++ packed ++ b.drop (o.toNat + packed.length)))
+      else throw .StructError
+  | _, _, _ => throw .unsupported
+
+/-- `buf.append(x)` on a bytearray: the buffer afterwards (ValueError for a value outside 0..255) -/
+def bytearray_append (buf x : V) : PyM V :=
+  match buf with
+  | .bytes b => do let y ← byteOfV x; pure (.bytes (b ++ [y]))
+  | _ => throw .AttributeError
+
 end PlumVerif.PyT
